@@ -5,7 +5,7 @@ def _sig(c, v):
     return "%s:%s" % ({1: "monitor", 2: "mismatch"}.get(v, v), "+".join(feats) or "plain")
 
 def _runner(prop):
-    return {"kind": "coqcases", "module": "CorrCache", "harness": "cache", "args": ["-prop", prop],
+    return {"kind": "coqcases", "module": "CorrCache", "shards": 8, "harness": "cache", "args": ["-prop", prop],
             "corr": "Run/CorrCache.v (Model/Cache.v vs /repo/storage/fifoMapCache.go; monitor of %s)" % prop,
             "sigfn": _sig,
             "rule": "case = one history on a fresh FifoMapCache with sweeps held by the verif hook (Sweep happens exactly where the history says); every output and periodic observation blocks (Get/Contains for the whole key universe, Keys, Values, Len, Capacity) are compared with the model and checked by the property's black-box monitor; distinct = by (option, capacity, program); non-trivial = an eviction happened, or a Resize, or an update plus a delete of a present key."}
